@@ -743,7 +743,7 @@ class C06(NlpCheck):
 class C02(NlpCheck):
     pid = "C02"
     uses_generated = True
-    slices = ["collocation-rows", "dae-rows", "root-times-and-samples"]
+    slices = ["collocation-rows", "dae-rows", "root-times-and-samples", "rows-follow-the-current-grid"]
     tags = ("defect", "alg", "cont")
     profiles = [
         ("collocation-rows",
@@ -761,6 +761,59 @@ class C02(NlpCheck):
                 "continuity rows are members of the NLP with the stated arguments; a scaled equality row is feasible iff both sides "
                 "agree. correspondence: defect/alg/continuity atoms of the model are atoms of rockit's NLP at random points; root "
                 "times; algebraic samples on control/integrator grids")
+
+    def correspondence(self):
+        NlpCheck.correspondence(self)
+        self.retranscribed_slice()
+
+    def retranscribed_slice(self):
+        """the collocation rows use the times of the grid AS IT IS NOW: a collocation problem with explicitly time-dependent dynamics,
+        transcribed, then given another horizon or start time (same method object), has the NLP of the problem declared with that horizon
+        from the start (whose rows the main correspondence ties to the model)"""
+        n = 6 if self.tier == 'quick' else 60
+        prof = {'methods': [('dc', 'rk')], 'grids': ['uniform', 'geometric'], 'horizon': ['num'], 'obj_kinds': ['at_tf', 'integral'], 'ncons': (0, 1),
+                'features': {'time': 1.0, 'dae': 0.3}, 'Ns': [2, 3], 'Ms': [1, 2], 'degrees': [1, 2, 3], 'nxs': [1, 2], 'nus': [1]}
+        for it in range(n):
+            desc = G.gen_case(self.rng, prof)
+            s_ = G.symbols(desc)
+            for i_ in range(len(desc['ode'])):      # every right-hand side depends on time explicitly
+                desc['ode'][i_] = ('+', desc['ode'][i_], ('*', Mo.E.C(G.coef(self.rng)), ('*', ('t',), self.rng.choice(s_['x'] + [('t',)]))))
+            which = ['T', 't0', 'both'][it % 3]
+            query = ['value', 'solve'][it % 2]
+            newT = desc['T'][1] + Fr(self.rng.randint(1, 4), 2)
+            newt0 = desc['t0'][1] + Fr(self.rng.choice([-3, -1, 1, 3]), 2)
+            hist = [query] + (['set_T'] if which in ('T', 'both') else []) + (['set_t0'] if which in ('t0', 'both') else [])
+            try:
+                bA = B.build(desc, transcribe=False)
+                ocp = bA.ocp
+                cur = copy.deepcopy(desc)
+                with B.quiet():
+                    if query == 'value':
+                        ocp.value(ocp.T)
+                    else:
+                        try:
+                            ocp.solve()
+                        except RuntimeError:
+                            pass
+                    if which in ('T', 'both'):
+                        ocp.set_T(float(newT)); cur['T'] = ('num', newT)
+                    if which in ('t0', 'both'):
+                        ocp.set_t0(float(newt0)); cur['t0'] = ('num', newt0)
+                    bB = B.build(cur, transcribe=False)
+                    bB.ocp._transcribed
+                    B.finish(bB)
+                err = nlp_signature_compare(ocp, bB, self.rng, "after %s" % (hist,))
+            except (ZeroDivisionError, OverflowError):
+                continue
+            except Exception as ex:
+                err = "after %s: %s: %s" % (hist, type(ex).__name__, str(ex)[:300])
+            self.evaluations += 1
+            self.signatures.add("retranscribed-%d" % it)
+            self.count("retranscribed:" + which)
+            if err:
+                self.slice_ok["rows-follow-the-current-grid"] = False
+                self.violation(err, {"desc": desc, "history": hist, "T": newT, "t0": newt0}, {"kind": "retranscribed", "which": which})
+                return
 
     def extra_compare(self, desc, res):
         out = []
